@@ -410,10 +410,6 @@ def binop(ip, op, a, b):
         if isinstance(op, (ast.Add, ast.Mod, ast.Mult)):
             return '<str>'
         raise Unsupported('string operation')
-    if hasattr(a, 'pv_compare'):
-        return a.pv_compare(ip, type(op).__name__, b)
-    if hasattr(b, 'pv_compare'):
-        return b.pv_compare(ip, type(op).__name__, a)
     if isinstance(a, InfVal) or isinstance(b, InfVal):
         raise Unsupported('arithmetic with inf')
     # list concatenation / repetition
@@ -545,6 +541,10 @@ def compare(ip, op, a, b):
         if isinstance(op, ast.NotIn):
             return (not r) if isinstance(r, bool) else z3.Not(r)
         return r
+    if hasattr(a, 'pv_compare'):
+        return a.pv_compare(ip, type(op).__name__, b)
+    if hasattr(b, 'pv_compare'):
+        return b.pv_compare(ip, type(op).__name__, a)
     if isinstance(a, InfVal) or isinstance(b, InfVal):
         return _cmp_inf(op, a, b)
     if (isinstance(a, Seq) and a.kind == 'ndarray') or (isinstance(b, Seq) and b.kind == 'ndarray'):
@@ -1241,6 +1241,18 @@ def b_abs(ip, args, kw):
 
 
 def b_zip(ip, args, kw):
+    if any(isinstance(a, _interp_types().LazyIter) for a in args):
+        def produce():
+            its = [a.pull() if isinstance(a, _interp_types().LazyIter) else iter(_concrete_items(ip, a)) for a in args]
+            while True:
+                row = []
+                for it in its:              # python's zip pulls left to right and stops at the first exhausted iterator
+                    try:
+                        row.append(next(it))
+                    except StopIteration:
+                        return
+                yield tuple(row)
+        return _interp_types().LazyIter(produce(), 'zip')
     if all(isinstance(a, (list, tuple)) for a in args):
         return [tuple(t) for t in zip(*args)]
     conc = [seq_len(a) for a in args]
@@ -1255,9 +1267,21 @@ def b_zip(ip, args, kw):
     return Seq(z3.simplify(n), lambda i: tuple(s.fn(i) for s in seqs), 'list')
 
 
+def _concrete_items(ip, a):
+    items = ip.iter_values(a)
+    if not isinstance(items, list):
+        raise Unsupported('zip of a generator with a symbolic-length sequence')
+    return items
+
+
 def b_enumerate(ip, args, kw):
     start = kw.get('start', args[1] if len(args) > 1 else 0)
     v = args[0]
+    if isinstance(v, _interp_types().LazyIter):
+        def produce():
+            for k, x in enumerate(v.pull()):
+                yield (start + k, x)
+        return _interp_types().LazyIter(produce(), 'enumerate')
     if isinstance(v, (list, tuple)):
         return [(start + k, x) for k, x in enumerate(v)]
     s = snap(v)
@@ -1265,6 +1289,24 @@ def b_enumerate(ip, args, kw):
     if n is not None and n <= 64:
         return [(start + k, s.fn(z3.IntVal(k))) for k in range(n)]
     return Seq(s.length, lambda i: (i + start, s.fn(i)), 'list')
+
+
+def b_map(ip, args, kw):
+    """map is lazy in python 3: the function is called when an element is pulled"""
+    LI = _interp_types().LazyIter
+    fn, its = args[0], args[1:]
+
+    def produce():
+        srcs = [a.pull() if isinstance(a, LI) else iter(_concrete_items(ip, a)) for a in its]
+        while True:
+            row = []
+            for it in srcs:
+                try:
+                    row.append(next(it))
+                except StopIteration:
+                    return
+            yield ip.call(fn, row, {})
+    return LI(produce(), 'map')
 
 
 def b_reversed(ip, args, kw):
@@ -1383,7 +1425,7 @@ def _mk_builtins():
     d = {
         'len': B('len', b_len), 'range': B('range', b_range), 'isinstance': B('isinstance', b_isinstance),
         'max': B('max', b_minmax('max')), 'min': B('min', b_minmax('min')), 'abs': B('abs', b_abs),
-        'zip': B('zip', b_zip), 'enumerate': B('enumerate', b_enumerate),
+        'zip': B('zip', b_zip), 'enumerate': B('enumerate', b_enumerate), 'map': B('map', b_map),
         'reversed': B('reversed', b_reversed), 'sorted': B('sorted', b_sorted),
         'print': B('print', b_print), 'sum': B('sum', b_sum), 'any': B('any', b_any),
         'all': B('all', b_all), 'callable': B('callable', b_callable), 'round': B('round', b_round),
